@@ -815,18 +815,22 @@ def visit(node):
     while stack:
         node = stack.pop()
 
+        if not isinstance(node, (list, tuple, dict, ParsedObject)):
+            continue
+
+        # A shared object or container is expanded only the first time.
+        node_id = id(node)
+        if node_id in visited:
+            continue
+        visited.add(node_id)
+
         if isinstance(node, (list, tuple)):
             stack.extend(reversed(node))
 
         elif isinstance(node, dict):
             stack.extend(reversed(node.values()))
 
-        elif isinstance(node, ParsedObject):
-            node_id = id(node)
-            if node_id in visited:
-                continue
-            visited.add(node_id)
-
+        else:
             yield node
 
             if hasattr(node, '_fields'):
